@@ -374,14 +374,14 @@ def run(ctx):
     gid = bytes.fromhex(first.split()[1].split("=")[1])
     dump = S.parse_dump(first.split(" ", 2)[2])
     known = [(bytes.fromhex(c["id"]), s["first"] + k) for s in dump["segs"] for k, c in enumerate(s["cmds"])]
-    mult = 5 if ctx.thorough else 1
-    valid = gen_sync_types(r, 110 * mult, gid)
+    mult = 8 if ctx.thorough else 1
+    valid = gen_sync_types(r, 70 * mult, gid)
     cases = {
-        "decode": valid + [mutate(r, b) for b in valid for _ in range(2)] + random_bytes(r, 200 * mult),
+        "decode": valid + [mutate(r, b) for b in valid for _ in range(2)] + random_bytes(r, 120 * mult),
         "subres": [b"", b"\x00", b"\x01", b"\x02", b"\x80\x00", b"\x81\x00", b"\x80\x80\x80\x80\x80\x00", b"\xff\xff\xff\xff\x0f", b"\xff\xff\xff\xff\x1f", b"\x00\x55"] + random_bytes(r, 20 * mult),
-        "reqrecv": gen_reqrecv(r, 320 * mult) + [(5, "start", 0, b) for b in random_bytes(r, 60 * mult)],
-        "push": gen_push(r, 90 * mult, gid),
-        "resp": gen_resp_seqs(r, 110 * mult, gid, known) + [(400000, [b]) for b in random_bytes(r, 30 * mult)],
+        "reqrecv": gen_reqrecv(r, 200 * mult) + [(5, "start", 0, b) for b in random_bytes(r, 40 * mult)],
+        "push": gen_push(r, 60 * mult, gid),
+        "resp": gen_resp_seqs(r, 70 * mult, gid, known) + [(400000, [b]) for b in random_bytes(r, 20 * mult)],
     }
     if getattr(ctx, "replay_in", None):
         try:
